@@ -1130,3 +1130,373 @@ Print Assumptions C11_wiring_StripeMeasures_table_proportion_variances.
 
 End Wiring_C11.
 (* ---- WIRING-APPENDIX:END ---- *)
+
+(*BEGIN ComposePublic_C11*)
+(* ==== COMPOSED PUBLIC THEOREMS (DESIGN 8.1: the composition of the translators' links, proved) ==== *)
+(* Generated by tools/gen_compose_appendix.py; do not edit between the markers.
+   [public_slice C p] (Proofs/ComposePublicSem.v) is the value of the public member p of cubepart._Slice computed
+   by the CHAIN OF GENERATED TERMS: the wiring term of p (Gen/WiringSrc.v, x_wiring) over the evaluation ([aeval]) of
+   the generated `_assemble_matrix` term (Gen/AssembleSrc.v, x_assemble) over the evaluations ([meval] / [meval_sq] /
+   [beval]) of the generated block terms of the measure (Gen/MeasureSrc.v, Gen/BasesSrc.v) -- each in the environment
+   in which the blocks of the measures it mentions are again evaluations of generated terms -- on the context
+   [Cs ..]: the four first-order arrays Model/CubeCounts.v::slice_counts extracts from the flat payload of
+   `tabulate S` ([survey_payload]), any subtotals / flags, any pair of in-range signed display orders.
+   [need b P] = P when every generated term named in b is available ([None] => True, like the GenAgree lemmas);
+   Cxx_public_terms_available: on this tree they all are.  The proofs use the GenAgree lemmas of the links as they
+   are (never unfolding a generated term) and Proofs/Compose*.v / Merge*.v for the last step to the respondents.
+   A change of MEANING of any generated term of a chain breaks the composed theorem of every member above it. *)
+From Coq Require String.
+From CC Require Spec.Merge Model.Subtotals Model.Proportions Proofs.MergeSurvey Proofs.ComposeBase Proofs.ComposePayload
+     Proofs.ComposePublicSem Proofs.ComposePublicLinks Proofs.ComposePublicSlice Proofs.ComposePublicCells Proofs.ComposeVariance Proofs.VarianceProofs Proofs.ComposePublicChain2 Proofs.ComposePublicC11.
+Section ComposePublic_C11.   (* scopes and imports below end with the section *)
+Import Coq.Strings.String Coq.ZArith.ZArith CC.Spec.Merge CC.Model.Subtotals CC.Model.Proportions CC.Proofs.MergeSurvey
+       CC.Proofs.ComposeBase CC.Proofs.ComposePayload CC.Proofs.ComposePublicSem CC.Proofs.ComposePublicLinks
+       CC.Proofs.ComposePublicSlice CC.Proofs.ComposePublicCells CC.Proofs.ComposeVariance CC.Proofs.VarianceProofs CC.Proofs.ComposePublicChain2 CC.Proofs.ComposePublicC11.
+Import Coq.Lists.List.ListNotations.
+Local Close Scope Q_scope.
+Local Open Scope string_scope.
+Local Open Scope nat_scope.
+
+
+(* the vocabulary of the statements ([survey_display]: C03_public_vocabulary in Props/C03.v) *)
+Theorem C11_public_vocabulary :
+  (forall P ro co spec,
+     base_cells_spec P ro co spec =
+     (pshape P = Some (List.length ro, List.length co) /\
+      forall i j, i < List.length ro -> j < List.length co -> (0 <= nth i ro 0%Z)%Z -> (0 <= nth j co 0%Z)%Z ->
+        spec (Z.to_nat (nth i ro 0%Z)) (Z.to_nat (nth j co 0%Z)) (pcell P i j))) /\
+  (forall bp S tv vr kr mr vc kc mc k r c x,
+     var_cell_spec bp S tv vr kr mr vc kc mc k r c x =
+     let l := marks S (bp tv k vr kr mr vc kc mc r c) (cell_in tv k vr kr mr vc kc mc r c) in
+     let cnt := w_cell tv k vr kr mr vc kc mc S r c in
+     let b := wsum S (bp tv k vr kr mr vc kc mc r c) in
+     match x with
+     | NaN => (b == 0)%Q
+     | Fin v => ~ (b == 0)%Q /\ (v == spec_var l)%Q /\ (v == (cnt / b) * (1 - cnt / b))%Q /\ (0 <= v)%Q
+     | Inf _ => False
+     end) /\
+  (forall bp S tv vr kr mr vc kc mc k r c x,
+     se_cell_spec bp S tv vr kr mr vc kc mc k r c x =
+     let l := marks S (bp tv k vr kr mr vc kc mc r c) (cell_in tv k vr kr mr vc kc mc r c) in
+     let b := wsum S (bp tv k vr kr mr vc kc mc r c) in
+     match x with
+     | NaN => (b == 0)%Q
+     | Fin s => ~ (b == 0)%Q /\ (s == spec_var l / b)%Q /\ (0 <= s)%Q
+     | Inf _ => False
+     end).
+Proof. exact (conj (fun _ _ _ _ => eq_refl) (conj (fun _ _ _ _ _ _ _ _ _ _ _ _ _ => eq_refl)
+                   (fun _ _ _ _ _ _ _ _ _ _ _ _ _ => eq_refl))). Qed.
+Print Assumptions C11_public_vocabulary.
+
+(* _Slice.row_proportion_variances at a display cell showing base row r, base column c: the spec variance of the membership indicator over the respondents of the row base; NaN iff that base is empty *)
+Theorem C11_public_Slice_row_proportion_variances :
+  need terms_public_row_variances
+  (forall S tv vr kr mr vc kc mc k rsubs csubs dn rd cd flag ro co so,
+     survey_display S tv vr kr mr vc kc mc k rsubs csubs ro co so ->
+     base_cells_spec (public_slice (Cs mr mc rsubs csubs dn rd cd flag ro co so) "row_proportion_variances") ro co
+       (var_cell_spec rowbase_in S tv vr kr mr vc kc mc k)).
+Proof. exact compose_public_Slice_row_proportion_variances. Qed.
+Print Assumptions C11_public_Slice_row_proportion_variances.
+
+(* _Slice.column_proportion_variances at a display cell showing base row r, base column c: the spec variance of the membership indicator over the respondents of the column base; NaN iff that base is empty *)
+Theorem C11_public_Slice_column_proportion_variances :
+  need terms_public_column_variances
+  (forall S tv vr kr mr vc kc mc k rsubs csubs dn rd cd flag ro co so,
+     survey_display S tv vr kr mr vc kc mc k rsubs csubs ro co so ->
+     base_cells_spec (public_slice (Cs mr mc rsubs csubs dn rd cd flag ro co so) "column_proportion_variances") ro co
+       (var_cell_spec colbase_in S tv vr kr mr vc kc mc k)).
+Proof. exact compose_public_Slice_column_proportion_variances. Qed.
+Print Assumptions C11_public_Slice_column_proportion_variances.
+
+(* _Slice.table_proportion_variances at a display cell showing base row r, base column c: the spec variance of the membership indicator over the respondents of the table base; NaN iff that base is empty *)
+Theorem C11_public_Slice_table_proportion_variances :
+  need terms_public_table_variances
+  (forall S tv vr kr mr vc kc mc k rsubs csubs dn rd cd flag ro co so,
+     survey_display S tv vr kr mr vc kc mc k rsubs csubs ro co so ->
+     base_cells_spec (public_slice (Cs mr mc rsubs csubs dn rd cd flag ro co so) "table_proportion_variances") ro co
+       (var_cell_spec tabbase_in S tv vr kr mr vc kc mc k)).
+Proof. exact compose_public_Slice_table_proportion_variances. Qed.
+Print Assumptions C11_public_Slice_table_proportion_variances.
+
+(* _Slice.row_std_err, carried as its SIGNED SQUARE (np.sqrt is never evaluated): that variance over the weighted base *)
+Theorem C11_public_Slice_row_std_err :
+  need terms_public_row_std_err
+  (forall S tv vr kr mr vc kc mc k rsubs csubs dn rd cd flag ro co so,
+     survey_display S tv vr kr mr vc kc mc k rsubs csubs ro co so ->
+     base_cells_spec (public_slice (Cs mr mc rsubs csubs dn rd cd flag ro co so) "row_std_err") ro co
+       (se_cell_spec rowbase_in S tv vr kr mr vc kc mc k)).
+Proof. exact compose_public_Slice_row_std_err. Qed.
+Print Assumptions C11_public_Slice_row_std_err.
+
+(* _Slice.column_std_err, carried as its SIGNED SQUARE (np.sqrt is never evaluated): that variance over the weighted base *)
+Theorem C11_public_Slice_column_std_err :
+  need terms_public_column_std_err
+  (forall S tv vr kr mr vc kc mc k rsubs csubs dn rd cd flag ro co so,
+     survey_display S tv vr kr mr vc kc mc k rsubs csubs ro co so ->
+     base_cells_spec (public_slice (Cs mr mc rsubs csubs dn rd cd flag ro co so) "column_std_err") ro co
+       (se_cell_spec colbase_in S tv vr kr mr vc kc mc k)).
+Proof. exact compose_public_Slice_column_std_err. Qed.
+Print Assumptions C11_public_Slice_column_std_err.
+
+(* _Slice.table_std_err, carried as its SIGNED SQUARE (np.sqrt is never evaluated): that variance over the weighted base *)
+Theorem C11_public_Slice_table_std_err :
+  need terms_public_table_std_err
+  (forall S tv vr kr mr vc kc mc k rsubs csubs dn rd cd flag ro co so,
+     survey_display S tv vr kr mr vc kc mc k rsubs csubs ro co so ->
+     base_cells_spec (public_slice (Cs mr mc rsubs csubs dn rd cd flag ro co so) "table_std_err") ro co
+       (se_cell_spec tabbase_in S tv vr kr mr vc kc mc k)).
+Proof. exact compose_public_Slice_table_std_err. Qed.
+Print Assumptions C11_public_Slice_table_std_err.
+
+(* NON-VACUITY of the guards: every generated term the chains need is available on this tree *)
+Theorem C11_public_terms_available :
+  terms_public_row_variances = true /\ terms_public_column_variances = true /\ terms_public_table_variances = true /\ terms_public_row_std_err = true /\ terms_public_column_std_err = true /\ terms_public_table_std_err = true.
+Proof. exact (conj eq_refl (conj eq_refl (conj eq_refl (conj eq_refl (conj eq_refl eq_refl))))). Qed.
+Print Assumptions C11_public_terms_available.
+
+(* EXAMPLES: the survey, subtotal and display of the C03_public_* examples; display cell (0, 1) shows base row 1, base column 0 *)
+Example C11_public_Slice_row_proportion_variances_example :
+  let S := [ mkResp [ACat 0; AMr [Sel; Oth]; ACat 0] (3 # 2);
+             mkResp [ACat 2; AMr [Sel; Mis]; ACat 1] 2;
+             mkResp [ACat 1; AMr [Sel; Sel]; ACat 0] 5;
+             mkResp [ACat 2; AMr [Oth; Sel]; ACat 1] (1 # 4);
+             mkResp [ACat 0; AMr [Oth; Oth]; ACat 2] 1 ] in
+  let mr := [false; true; false; false] in
+  let mc := [false; false] in
+  let rs := [mkSub [0; 2] []] in
+  let ro := [1; -1; 0]%Z in
+  let co := [1; 0]%Z in
+  match slice_counts (cube_dims None KCat mr KMr mc) (survey_payload None 0 KCat mr 1 KMr mc S) 0 with
+  | Some so =>
+      let P := public_slice (Cs mr mc rs [] false false false (fun _ => false) ro co so) "row_proportion_variances" in
+      survey_display S None 0 KCat mr 1 KMr mc 0 rs [] ro co so /\
+      base_cells_spec P ro co (var_cell_spec rowbase_in S None 0 KCat mr 1 KMr mc 0) /\
+      pred P = PMat 3 2 [[Fin 0; Fin (8 # 81)]; [Fin 0; Fin (6 # 25)]; [Fin 0; Fin (6 # 25)]] /\
+      (spec_var (marks S (rowbase_in None 0 0 KCat mr 1 KMr mc 1 0) (cell_in None 0 0 KCat mr 1 KMr mc 1 0)) == 8 # 81)%Q /\
+      (wsum S (rowbase_in None 0 0 KCat mr 1 KMr mc 1 0) == 9 # 4)%Q
+  | None => False
+  end.
+Proof.
+  cbv zeta.
+  destruct (slice_counts (cube_dims None KCat [false; true; false; false] KMr [false; false])
+              (survey_payload None 0 KCat [false; true; false; false] 1 KMr [false; false] _) 0) as [so|] eqn:E;
+    [|vm_compute in E; discriminate].
+  assert (D : survey_display
+                [ mkResp [ACat 0; AMr [Sel; Oth]; ACat 0] (3 # 2); mkResp [ACat 2; AMr [Sel; Mis]; ACat 1] 2;
+                  mkResp [ACat 1; AMr [Sel; Sel]; ACat 0] 5; mkResp [ACat 2; AMr [Oth; Sel]; ACat 1] (1 # 4);
+                  mkResp [ACat 0; AMr [Oth; Oth]; ACat 2] 1 ]
+                None 0 KCat [false; true; false; false] 1 KMr [false; false] 0 [mkSub [0; 2] []] []
+                [1; -1; 0]%Z [1; 0]%Z so).
+  { split; [exact I|]. split; [left; reflexivity|]. split; [right; reflexivity|]. split; [vm_compute; lia|].
+    split; [repeat constructor; discriminate|]. split; [vm_compute; lia|]. split; [vm_compute; lia|].
+    split; [exact E|]. split; repeat constructor; vm_compute; discriminate. }
+  split; [exact D|].
+  split; [exact (need_elim _ _ eq_refl C11_public_Slice_row_proportion_variances _ _ _ _ _ _ _ _ _ _ _ _ _ _ _ _ _ _ D)|].
+  vm_compute in E. injection E as <-.
+  split; [vm_compute; reflexivity|]. split; [vm_compute; reflexivity|]. vm_compute; reflexivity.
+Qed.
+
+Example C11_public_Slice_column_proportion_variances_example :
+  let S := [ mkResp [ACat 0; AMr [Sel; Oth]; ACat 0] (3 # 2);
+             mkResp [ACat 2; AMr [Sel; Mis]; ACat 1] 2;
+             mkResp [ACat 1; AMr [Sel; Sel]; ACat 0] 5;
+             mkResp [ACat 2; AMr [Oth; Sel]; ACat 1] (1 # 4);
+             mkResp [ACat 0; AMr [Oth; Oth]; ACat 2] 1 ] in
+  let mr := [false; true; false; false] in
+  let mc := [false; false] in
+  let rs := [mkSub [0; 2] []] in
+  let ro := [1; -1; 0]%Z in
+  let co := [1; 0]%Z in
+  match slice_counts (cube_dims None KCat mr KMr mc) (survey_payload None 0 KCat mr 1 KMr mc S) 0 with
+  | Some so =>
+      let P := public_slice (Cs mr mc rs [] false false false (fun _ => false) ro co so) "column_proportion_variances" in
+      survey_display S None 0 KCat mr 1 KMr mc 0 rs [] ro co so /\
+      base_cells_spec P ro co (var_cell_spec colbase_in S None 0 KCat mr 1 KMr mc 0) /\
+      pred P = PMat 3 2 [[Fin 0; Fin (12 # 49)]; [Fin 0; Fin (12 # 49)]; [Fin 0; Fin (12 # 49)]] /\
+      (spec_var (marks S (colbase_in None 0 0 KCat mr 1 KMr mc 1 0) (cell_in None 0 0 KCat mr 1 KMr mc 1 0)) == 12 # 49)%Q /\
+      (wsum S (colbase_in None 0 0 KCat mr 1 KMr mc 1 0) == 7 # 2)%Q
+  | None => False
+  end.
+Proof.
+  cbv zeta.
+  destruct (slice_counts (cube_dims None KCat [false; true; false; false] KMr [false; false])
+              (survey_payload None 0 KCat [false; true; false; false] 1 KMr [false; false] _) 0) as [so|] eqn:E;
+    [|vm_compute in E; discriminate].
+  assert (D : survey_display
+                [ mkResp [ACat 0; AMr [Sel; Oth]; ACat 0] (3 # 2); mkResp [ACat 2; AMr [Sel; Mis]; ACat 1] 2;
+                  mkResp [ACat 1; AMr [Sel; Sel]; ACat 0] 5; mkResp [ACat 2; AMr [Oth; Sel]; ACat 1] (1 # 4);
+                  mkResp [ACat 0; AMr [Oth; Oth]; ACat 2] 1 ]
+                None 0 KCat [false; true; false; false] 1 KMr [false; false] 0 [mkSub [0; 2] []] []
+                [1; -1; 0]%Z [1; 0]%Z so).
+  { split; [exact I|]. split; [left; reflexivity|]. split; [right; reflexivity|]. split; [vm_compute; lia|].
+    split; [repeat constructor; discriminate|]. split; [vm_compute; lia|]. split; [vm_compute; lia|].
+    split; [exact E|]. split; repeat constructor; vm_compute; discriminate. }
+  split; [exact D|].
+  split; [exact (need_elim _ _ eq_refl C11_public_Slice_column_proportion_variances _ _ _ _ _ _ _ _ _ _ _ _ _ _ _ _ _ _ D)|].
+  vm_compute in E. injection E as <-.
+  split; [vm_compute; reflexivity|]. split; [vm_compute; reflexivity|]. vm_compute; reflexivity.
+Qed.
+
+Example C11_public_Slice_table_proportion_variances_example :
+  let S := [ mkResp [ACat 0; AMr [Sel; Oth]; ACat 0] (3 # 2);
+             mkResp [ACat 2; AMr [Sel; Mis]; ACat 1] 2;
+             mkResp [ACat 1; AMr [Sel; Sel]; ACat 0] 5;
+             mkResp [ACat 2; AMr [Oth; Sel]; ACat 1] (1 # 4);
+             mkResp [ACat 0; AMr [Oth; Oth]; ACat 2] 1 ] in
+  let mr := [false; true; false; false] in
+  let mc := [false; false] in
+  let rs := [mkSub [0; 2] []] in
+  let ro := [1; -1; 0]%Z in
+  let co := [1; 0]%Z in
+  match slice_counts (cube_dims None KCat mr KMr mc) (survey_payload None 0 KCat mr 1 KMr mc S) 0 with
+  | Some so =>
+      let P := public_slice (Cs mr mc rs [] false false false (fun _ => false) ro co so) "table_proportion_variances" in
+      survey_display S None 0 KCat mr 1 KMr mc 0 rs [] ro co so /\
+      base_cells_spec P ro co (var_cell_spec tabbase_in S None 0 KCat mr 1 KMr mc 0) /\
+      pred P = PMat 3 2 [[Fin (10 # 121); Fin (88 # 361)]; [Fin 0; Fin (78 # 361)]; [Fin 0; Fin (78 # 361)]] /\
+      (spec_var (marks S (tabbase_in None 0 0 KCat mr 1 KMr mc 1 0) (cell_in None 0 0 KCat mr 1 KMr mc 1 0)) == 88 # 361)%Q /\
+      (wsum S (tabbase_in None 0 0 KCat mr 1 KMr mc 1 0) == 19 # 4)%Q
+  | None => False
+  end.
+Proof.
+  cbv zeta.
+  destruct (slice_counts (cube_dims None KCat [false; true; false; false] KMr [false; false])
+              (survey_payload None 0 KCat [false; true; false; false] 1 KMr [false; false] _) 0) as [so|] eqn:E;
+    [|vm_compute in E; discriminate].
+  assert (D : survey_display
+                [ mkResp [ACat 0; AMr [Sel; Oth]; ACat 0] (3 # 2); mkResp [ACat 2; AMr [Sel; Mis]; ACat 1] 2;
+                  mkResp [ACat 1; AMr [Sel; Sel]; ACat 0] 5; mkResp [ACat 2; AMr [Oth; Sel]; ACat 1] (1 # 4);
+                  mkResp [ACat 0; AMr [Oth; Oth]; ACat 2] 1 ]
+                None 0 KCat [false; true; false; false] 1 KMr [false; false] 0 [mkSub [0; 2] []] []
+                [1; -1; 0]%Z [1; 0]%Z so).
+  { split; [exact I|]. split; [left; reflexivity|]. split; [right; reflexivity|]. split; [vm_compute; lia|].
+    split; [repeat constructor; discriminate|]. split; [vm_compute; lia|]. split; [vm_compute; lia|].
+    split; [exact E|]. split; repeat constructor; vm_compute; discriminate. }
+  split; [exact D|].
+  split; [exact (need_elim _ _ eq_refl C11_public_Slice_table_proportion_variances _ _ _ _ _ _ _ _ _ _ _ _ _ _ _ _ _ _ D)|].
+  vm_compute in E. injection E as <-.
+  split; [vm_compute; reflexivity|]. split; [vm_compute; reflexivity|]. vm_compute; reflexivity.
+Qed.
+
+Example C11_public_Slice_row_std_err_example :
+  let S := [ mkResp [ACat 0; AMr [Sel; Oth]; ACat 0] (3 # 2);
+             mkResp [ACat 2; AMr [Sel; Mis]; ACat 1] 2;
+             mkResp [ACat 1; AMr [Sel; Sel]; ACat 0] 5;
+             mkResp [ACat 2; AMr [Oth; Sel]; ACat 1] (1 # 4);
+             mkResp [ACat 0; AMr [Oth; Oth]; ACat 2] 1 ] in
+  let mr := [false; true; false; false] in
+  let mc := [false; false] in
+  let rs := [mkSub [0; 2] []] in
+  let ro := [1; -1; 0]%Z in
+  let co := [1; 0]%Z in
+  match slice_counts (cube_dims None KCat mr KMr mc) (survey_payload None 0 KCat mr 1 KMr mc S) 0 with
+  | Some so =>
+      let P := public_slice (Cs mr mc rs [] false false false (fun _ => false) ro co so) "row_std_err" in
+      survey_display S None 0 KCat mr 1 KMr mc 0 rs [] ro co so /\
+      base_cells_spec P ro co (se_cell_spec rowbase_in S None 0 KCat mr 1 KMr mc 0) /\
+      pred P = PMat 3 2 [[Fin 0; Fin (32 # 729)]; [Fin 0; Fin (12 # 125)]; [Fin 0; Fin (12 # 125)]] /\
+      (spec_var (marks S (rowbase_in None 0 0 KCat mr 1 KMr mc 1 0) (cell_in None 0 0 KCat mr 1 KMr mc 1 0)) / wsum S (rowbase_in None 0 0 KCat mr 1 KMr mc 1 0) == 32 # 729)%Q
+  | None => False
+  end.
+Proof.
+  cbv zeta.
+  destruct (slice_counts (cube_dims None KCat [false; true; false; false] KMr [false; false])
+              (survey_payload None 0 KCat [false; true; false; false] 1 KMr [false; false] _) 0) as [so|] eqn:E;
+    [|vm_compute in E; discriminate].
+  assert (D : survey_display
+                [ mkResp [ACat 0; AMr [Sel; Oth]; ACat 0] (3 # 2); mkResp [ACat 2; AMr [Sel; Mis]; ACat 1] 2;
+                  mkResp [ACat 1; AMr [Sel; Sel]; ACat 0] 5; mkResp [ACat 2; AMr [Oth; Sel]; ACat 1] (1 # 4);
+                  mkResp [ACat 0; AMr [Oth; Oth]; ACat 2] 1 ]
+                None 0 KCat [false; true; false; false] 1 KMr [false; false] 0 [mkSub [0; 2] []] []
+                [1; -1; 0]%Z [1; 0]%Z so).
+  { split; [exact I|]. split; [left; reflexivity|]. split; [right; reflexivity|]. split; [vm_compute; lia|].
+    split; [repeat constructor; discriminate|]. split; [vm_compute; lia|]. split; [vm_compute; lia|].
+    split; [exact E|]. split; repeat constructor; vm_compute; discriminate. }
+  split; [exact D|].
+  split; [exact (need_elim _ _ eq_refl C11_public_Slice_row_std_err _ _ _ _ _ _ _ _ _ _ _ _ _ _ _ _ _ _ D)|].
+  vm_compute in E. injection E as <-.
+  split; [vm_compute; reflexivity|]. vm_compute; reflexivity.
+Qed.
+
+Example C11_public_Slice_column_std_err_example :
+  let S := [ mkResp [ACat 0; AMr [Sel; Oth]; ACat 0] (3 # 2);
+             mkResp [ACat 2; AMr [Sel; Mis]; ACat 1] 2;
+             mkResp [ACat 1; AMr [Sel; Sel]; ACat 0] 5;
+             mkResp [ACat 2; AMr [Oth; Sel]; ACat 1] (1 # 4);
+             mkResp [ACat 0; AMr [Oth; Oth]; ACat 2] 1 ] in
+  let mr := [false; true; false; false] in
+  let mc := [false; false] in
+  let rs := [mkSub [0; 2] []] in
+  let ro := [1; -1; 0]%Z in
+  let co := [1; 0]%Z in
+  match slice_counts (cube_dims None KCat mr KMr mc) (survey_payload None 0 KCat mr 1 KMr mc S) 0 with
+  | Some so =>
+      let P := public_slice (Cs mr mc rs [] false false false (fun _ => false) ro co so) "column_std_err" in
+      survey_display S None 0 KCat mr 1 KMr mc 0 rs [] ro co so /\
+      base_cells_spec P ro co (se_cell_spec colbase_in S None 0 KCat mr 1 KMr mc 0) /\
+      pred P = PMat 3 2 [[Fin 0; Fin (24 # 343)]; [Fin 0; Fin (24 # 343)]; [Fin 0; Fin (24 # 343)]] /\
+      (spec_var (marks S (colbase_in None 0 0 KCat mr 1 KMr mc 1 0) (cell_in None 0 0 KCat mr 1 KMr mc 1 0)) / wsum S (colbase_in None 0 0 KCat mr 1 KMr mc 1 0) == 24 # 343)%Q
+  | None => False
+  end.
+Proof.
+  cbv zeta.
+  destruct (slice_counts (cube_dims None KCat [false; true; false; false] KMr [false; false])
+              (survey_payload None 0 KCat [false; true; false; false] 1 KMr [false; false] _) 0) as [so|] eqn:E;
+    [|vm_compute in E; discriminate].
+  assert (D : survey_display
+                [ mkResp [ACat 0; AMr [Sel; Oth]; ACat 0] (3 # 2); mkResp [ACat 2; AMr [Sel; Mis]; ACat 1] 2;
+                  mkResp [ACat 1; AMr [Sel; Sel]; ACat 0] 5; mkResp [ACat 2; AMr [Oth; Sel]; ACat 1] (1 # 4);
+                  mkResp [ACat 0; AMr [Oth; Oth]; ACat 2] 1 ]
+                None 0 KCat [false; true; false; false] 1 KMr [false; false] 0 [mkSub [0; 2] []] []
+                [1; -1; 0]%Z [1; 0]%Z so).
+  { split; [exact I|]. split; [left; reflexivity|]. split; [right; reflexivity|]. split; [vm_compute; lia|].
+    split; [repeat constructor; discriminate|]. split; [vm_compute; lia|]. split; [vm_compute; lia|].
+    split; [exact E|]. split; repeat constructor; vm_compute; discriminate. }
+  split; [exact D|].
+  split; [exact (need_elim _ _ eq_refl C11_public_Slice_column_std_err _ _ _ _ _ _ _ _ _ _ _ _ _ _ _ _ _ _ D)|].
+  vm_compute in E. injection E as <-.
+  split; [vm_compute; reflexivity|]. vm_compute; reflexivity.
+Qed.
+
+Example C11_public_Slice_table_std_err_example :
+  let S := [ mkResp [ACat 0; AMr [Sel; Oth]; ACat 0] (3 # 2);
+             mkResp [ACat 2; AMr [Sel; Mis]; ACat 1] 2;
+             mkResp [ACat 1; AMr [Sel; Sel]; ACat 0] 5;
+             mkResp [ACat 2; AMr [Oth; Sel]; ACat 1] (1 # 4);
+             mkResp [ACat 0; AMr [Oth; Oth]; ACat 2] 1 ] in
+  let mr := [false; true; false; false] in
+  let mc := [false; false] in
+  let rs := [mkSub [0; 2] []] in
+  let ro := [1; -1; 0]%Z in
+  let co := [1; 0]%Z in
+  match slice_counts (cube_dims None KCat mr KMr mc) (survey_payload None 0 KCat mr 1 KMr mc S) 0 with
+  | Some so =>
+      let P := public_slice (Cs mr mc rs [] false false false (fun _ => false) ro co so) "table_std_err" in
+      survey_display S None 0 KCat mr 1 KMr mc 0 rs [] ro co so /\
+      base_cells_spec P ro co (se_cell_spec tabbase_in S None 0 KCat mr 1 KMr mc 0) /\
+      pred P = PMat 3 2 [[Fin (40 # 1331); Fin (352 # 6859)]; [Fin 0; Fin (312 # 6859)]; [Fin 0; Fin (312 # 6859)]] /\
+      (spec_var (marks S (tabbase_in None 0 0 KCat mr 1 KMr mc 1 0) (cell_in None 0 0 KCat mr 1 KMr mc 1 0)) / wsum S (tabbase_in None 0 0 KCat mr 1 KMr mc 1 0) == 352 # 6859)%Q
+  | None => False
+  end.
+Proof.
+  cbv zeta.
+  destruct (slice_counts (cube_dims None KCat [false; true; false; false] KMr [false; false])
+              (survey_payload None 0 KCat [false; true; false; false] 1 KMr [false; false] _) 0) as [so|] eqn:E;
+    [|vm_compute in E; discriminate].
+  assert (D : survey_display
+                [ mkResp [ACat 0; AMr [Sel; Oth]; ACat 0] (3 # 2); mkResp [ACat 2; AMr [Sel; Mis]; ACat 1] 2;
+                  mkResp [ACat 1; AMr [Sel; Sel]; ACat 0] 5; mkResp [ACat 2; AMr [Oth; Sel]; ACat 1] (1 # 4);
+                  mkResp [ACat 0; AMr [Oth; Oth]; ACat 2] 1 ]
+                None 0 KCat [false; true; false; false] 1 KMr [false; false] 0 [mkSub [0; 2] []] []
+                [1; -1; 0]%Z [1; 0]%Z so).
+  { split; [exact I|]. split; [left; reflexivity|]. split; [right; reflexivity|]. split; [vm_compute; lia|].
+    split; [repeat constructor; discriminate|]. split; [vm_compute; lia|]. split; [vm_compute; lia|].
+    split; [exact E|]. split; repeat constructor; vm_compute; discriminate. }
+  split; [exact D|].
+  split; [exact (need_elim _ _ eq_refl C11_public_Slice_table_std_err _ _ _ _ _ _ _ _ _ _ _ _ _ _ _ _ _ _ D)|].
+  vm_compute in E. injection E as <-.
+  split; [vm_compute; reflexivity|]. vm_compute; reflexivity.
+Qed.
+
+End ComposePublic_C11.
+(*END ComposePublic_C11*)
